@@ -1,6 +1,7 @@
 //! Which scenario families decide which property, with their budgets.
 
 use crate::gen::*;
+use crate::gen2::*;
 use crate::ir::Program;
 use desync_verif_rt::strategy::Rng;
 
@@ -12,6 +13,8 @@ pub struct Family {
     pub thorough_runs: u64,
     /// > 0: cases come in groups of this many that share a program and differ in the injection position
     pub sweep_width: u64,
+    /// the position selects a variant of the program (which operation panics) instead of a scheduling point
+    pub gen_at: Option<fn(&mut Rng, u64) -> Program>,
 }
 
 pub const STATE_NAMES: [&str; 8] = ["idle", "pending", "running", "waiting_for_wake", "waiting_for_unpark", "waiting_for_poll", "awoken_while_running", "panicked"];
@@ -49,12 +52,16 @@ fn g_wake(r: &mut Rng) -> Program {
 fn g_suspend(r: &mut Rng) -> Program {
     gen_general(r, &SUSPEND)
 }
+fn g_panic_sweep(r: &mut Rng, pos: u64) -> Program {
+    gen_panic_variant(r, pos)
+}
 
 const Q: u64 = 4_000_000;
 const T: u64 = 120_000_000;
 
 pub fn for_property(prop: &str) -> Vec<Family> {
-    let f = |name, what, gen: fn(&mut Rng) -> Program, q, t| Family { name, what, gen, quick_runs: q, thorough_runs: t, sweep_width: 0 };
+    let f = |name, what, gen: fn(&mut Rng) -> Program, q, t| Family { name, what, gen, quick_runs: q, thorough_runs: t, sweep_width: 0, gen_at: None };
+    let sw = |name, what, gen: fn(&mut Rng) -> Program, q, t, width| Family { name, what, gen, quick_runs: q, thorough_runs: t, sweep_width: width, gen_at: None };
     match prop {
         "C01" => vec![f("mix", "all operation kinds over 1..3 objects from 1..4 threads, pool 0..3, yields and awaits inside operations", g_mix, Q, T)],
         "C02" => vec![
@@ -72,9 +79,14 @@ pub fn for_property(prop: &str) -> Vec<Family> {
             f("drain-steal", "pool 0/1 so that sync callers drain and waiters steal", g_drain, Q / 4, T / 4),
             f("mix", "all operation kinds, all pools", g_mix, Q / 4, T / 4),
         ],
+        "C05" => vec![
+            f("drop", "last owner dropped by callers and by jobs of other objects while work is queued, running, suspended or being woken", gen_drop, Q / 2, T / 2),
+            sw("drop-sweep", "drop of the last owner injected at every scheduling point of the context running the object's jobs", gen_drop_sweep, Q / 2, T / 2, 64),
+        ],
         "C06" => vec![
-            f("wake", "future operations suspended on gates under each runner context, wake-ups at every relative timing", g_wake, Q * 3 / 4, T * 3 / 4),
+            f("wake", "future operations suspended on gates under each runner context, wake-ups at every relative timing", g_wake, Q / 2, T / 2),
             f("late-poll", "futures created early and polled late or never while other threads schedule", g_late, Q / 4, T / 4),
+            sw("wake-sweep", "the wake-up injected at every scheduling point of the suspending context (pool thread / thread inside sync / polling task), with and without stale, duplicate and self wakes", gen_wake_sweep, Q / 4, T / 4, 48),
         ],
         "C07" => vec![
             f("handles", "future_desync/after handles awaited, polled out of order, .sync()-ed, detached, dropped", g_handles, Q / 2, T / 2),
@@ -82,9 +94,21 @@ pub fn for_property(prop: &str) -> Vec<Family> {
             f("mix", "all operation kinds, all pools", g_mix, Q / 4, T / 4),
         ],
         "C08" => vec![
-            f("fsync", "future_sync handles polled, dropped at any point, awaited, nested across objects", g_fsync, Q * 3 / 4, T * 3 / 4),
+            f("fsync", "future_sync handles polled, dropped at any point, awaited, nested across objects", g_fsync, Q / 2, T / 2),
             f("mix", "all operation kinds, all pools", g_mix, Q / 4, T / 4),
+            sw("fsync-drop-sweep", "the owner drops the future_sync future when the queue's runner is at each of its scheduling points on the way to, inside and past the slot", gen_fsync_drop_sweep, Q / 4, T / 4, 64),
         ],
+        "C10" => vec![f("isolate", "k objects blocked on gates that stay closed, pool maximum above the number of stalled threads, other objects must finish before the gates open", gen_isolate, Q, T)],
+        "C11" => vec![f("pipe-in", "pipe_in with items arriving before/during/after polls, concurrent sync/desync on the target, the target dropped while the stream is open", gen_pipe_in, Q, T)],
+        "C12" => vec![f("pipe-out", "pipe with depth 1..5, consumer reading by blocking and by single polls, producer pushing and closing", gen_pipe_out, Q, T)],
+        "C15" => vec![
+            Family { name: "panic", what: "one operation panics (the position enumerates 10 kinds of operation x runner context); afterwards every kind of call on the panicked object, ordinary programs on healthy objects, and a capacity probe", gen: gen_panic, quick_runs: Q, thorough_runs: T, sweep_width: 10, gen_at: Some(g_panic_sweep) },
+        ],
+        "C16" => vec![
+            f("pipe-drop", "output stream dropped while the input stays open and silent", gen_pipe_drop, Q / 2, T / 2),
+            sw("pipe-drop-sweep", "the drop of the output injected at every scheduling point of the context polling the input", gen_pipe_drop_sweep, Q / 2, T / 2, 64),
+        ],
+        "C17" => vec![f("pool", "maximum 0..3 lazily grown, threads racing to spawn, limit raised/lowered/extra threads/despawn between phases", gen_pool, Q, T)],
         "C09" => vec![
             f("try", "try_sync racing every other operation kind and their completion paths", g_try, Q * 3 / 4, T * 3 / 4),
             f("mix-kick", "sync/try_sync callers and wakers racing with pool threads going dormant", g_kick, Q / 4, T / 4),
@@ -96,6 +120,7 @@ pub fn for_property(prop: &str) -> Vec<Family> {
 
 pub fn level_for(prop: &str) -> &'static str {
     match prop {
+        "C05" | "C06" | "C08" | "C15" | "C16" => "fault_enumeration",
         _ => "exploration",
     }
 }
@@ -111,6 +136,13 @@ pub fn required_probes(prop: &str) -> &'static [&'static str] {
         "C07" => &["handle_drops_unresolved", "gate_pending"],
         "C08" => &["fsync_drop_before_poll", "fsync_drop_mid", "fsync_drop_waiting_slot"],
         "C09" => &["try_ok", "try_busy"],
+        "C05" => &["drops_by_caller", "drops_by_pool", "sweep_injections_fired"],
+        "C10" => &["block_on"],
+        "C11" => &["stream_pending"],
+        "C12" => &["out_pending", "stream_pending"],
+        "C15" => &["panics_injected", "panic_on_pool", "panic_on_caller", "calls_on_panicked"],
+        "C16" => &["sweep_injections_fired"],
+        "C17" => &["pool_threads_spawned"],
         _ => &[],
     }
 }
